@@ -42,9 +42,7 @@ def _attr_chain(node):
     return None
 
 
-def extract(repo):
-    tree = parse(repo / SRC)
-    t = {}
+def _sec_mul(tree, t):
     mul = find_def(tree, "__mul__", cls="MultiformOperator")
     other = mul.args.args[1].arg if len(mul.args.args) == 2 else None
     if other is None:
@@ -97,7 +95,9 @@ def extract(repo):
             and isinstance(n.left, ast.Call) and isinstance(n.left.func, ast.Name) and n.left.func.id == "abs"]
     if len(cmp_) != 1:
         raise TranslateError("collapse: expected the filter abs(factors) > 0")
-    # ---- ConvertPauli table
+
+
+def _sec_convert(tree, t):
     init = find_def(tree, "__init__", cls="ConvertPauli")
     pt = local_assign(init, "pauli_translation")
     if not isinstance(pt, ast.List) or len(pt.elts) != 4:
@@ -113,7 +113,9 @@ def extract(repo):
             raise TranslateError("pauli_translation: negative integer code")
         table.append((r.elts[0].value, r.elts[1].value, tuple(int(b.value) for b in r.elts[2].elts)))
     t["pauli_translation"] = table
-    # ---- integer_to_binary: binary_x = (integer_op >> 1), binary_z = np.mod(integer_op, 2), concatenated (x, z)
+
+
+def _sec_binary(tree, t):
     itb = find_def(tree, "integer_to_binary")
     arg = itb.args.args[0].arg
     bx = local_assign(itb, "binary_x")
@@ -136,7 +138,9 @@ def extract(repo):
     if len(conc) != 1 or not (isinstance(conc[0].args[0], ast.Tuple)
                               and [getattr(e, "id", None) for e in conc[0].args[0].elts] == ["binary_x", "binary_z"]):
         raise TranslateError("integer_to_binary: expected concatenate((binary_x, binary_z))")
-    # ---- do_commute reductions
+
+
+def _sec_commute(tree, t):
     dc = find_def(tree, "do_commute")
     rets = [n for n in ast.walk(dc) if isinstance(n, ast.Return)]
     if len(rets) != 2:
@@ -161,13 +165,59 @@ def extract(repo):
     for needle in ("binary_swap", "logical_or.reduce", "logical_xor.reduce", ".binary"):
         if needle not in src:
             raise TranslateError("do_commute: %s not found" % needle)
+
+
+SECTIONS = [("__mul__", _sec_mul), ("ConvertPauli", _sec_convert), ("integer_to_binary", _sec_binary),
+            ("do_commute", _sec_commute)]
+
+# last known good content of every section (tree at the `fix:` commits for C16); used ONLY to keep the
+# search going when a section is no longer recognised -- the check reports the translator failure and
+# labels everything computed from these values as "fallback" in the evidence
+FALLBACK = {
+    "c_calc": [[(1, 0), (1, 0), (1, 0), (1, 0)], [(1, 0), (1, 0), (0, 1), (0, -1)],
+               [(1, 0), (0, -1), (1, 0), (0, 1)], [(1, 0), (0, 1), (0, -1), (1, 0)]],
+    "prod_name": "prod",
+    "pauli_translation": [("I", 0, (0, 0)), ("Z", 1, (0, 1)), ("X", 2, (1, 0)), ("Y", 3, (1, 1))],
+    "commute_reduction": "any",
+}
+
+
+def extract(repo):
+    """Strict: any unrecognised section raises TranslateError."""
+    tree = parse(repo / SRC)
+    t = {}
+    for _, f in SECTIONS:
+        f(tree, t)
     return t
 
 
-def emit(t):
+def extract_lenient(repo):
+    """(tables, [(section, message)]): sections that are not recognised are filled from FALLBACK."""
+    errors = []
+    t = {}
+    try:
+        tree = parse(repo / SRC)
+    except TranslateError as e:
+        return dict(FALLBACK), [("parse", str(e))]
+    for name, f in SECTIONS:
+        part = {}
+        try:
+            f(tree, part)
+            t.update(part)
+        except TranslateError as e:
+            errors.append((name, str(e)))
+        except Exception as e:       # an ast shape the matcher did not anticipate: still fail closed
+            errors.append((name, "unexpected source shape: %r" % (e,)))
+    for k, v in FALLBACK.items():
+        t.setdefault(k, v)
+    return t, errors
+
+
+def emit(t, fallback=()):
     def g(p):
         return "(%d, %d)%%Z" % p
-    L = ["(* GENERATED by translator/multiform_tables.py from %s — do not edit *)" % SRC,
+    L = ["(* GENERATED by translator/multiform_tables.py from %s — do not edit%s *)" % (
+        SRC, "; FALLBACK (last known good) values for: " + ", ".join(fallback) if fallback else ""),
          "From Coq Require Import ZArith NArith List String.",
          "Import ListNotations.", "",
          "(* c_calc[a][b] of MultiformOperator.__mul__ as Gaussian integers (re, im); row = left factor *)",
